@@ -135,6 +135,17 @@ def gen_crowded(rng):
     return {'moltypes': mts, 'molecules': [('MA', rng.randint(25, 40))], 'opts': opts, 'seed': rng.randrange(10 ** 6), 'crowded': True}
 
 
+def gen_few_tries(rng):
+    """a crowded box with a low force limit and one try per molecule (-mi 1): whole rounds of attempts fail and are started
+    over; what is finally accepted still respects the limit that was asked for"""
+    chain = systems.gen_moltype(rng, 'MA', nres=4, multi_atom=True, shape='path')
+    sol = systems.gen_moltype(rng, 'SOL', nres=1, resnames=['SV'])
+    e = round(rng.uniform(2.55, 2.7), 3)
+    opts = {'box': [e, e, e], 'step_fudge': 1.0, 'max_force': rng.choice([1e2, 2e2]), 'nrewind': 5, 'grid_spacing': 0.1, 'maxiter': 1}
+    return {'moltypes': [chain, sol], 'molecules': [('SOL', rng.randint(35, 42)), ('MA', rng.randint(4, 6)), ('SOL', rng.randint(18, 24)), ('MA', 2)],
+            'opts': opts, 'seed': rng.randrange(10 ** 6), 'few_tries': True}
+
+
 def run_monitored(case, timeout=60):
     """complete gen_coords run with the placement calls recorded and judged"""
     rec = {'placements': [], 'bad': [], 'grid': None}
@@ -181,8 +192,10 @@ def run_monitored(case, timeout=60):
                         dv = dv - box * np.round(dv / box)
                         force += lj(sig, eps, d) * dv / d
             item['near'] = near
-            if walker is not None and np.linalg.norm(force) > walker.max_force * (1 + 1e-9):
-                bad.append(f"accepted with force {np.linalg.norm(force):.3f} > max_force {walker.max_force}")
+            # the limit is the one that was asked for, whatever the walker carries by now
+            if walker is not None and np.linalg.norm(force) > opts['max_force'] * (1 + 1e-9):
+                bad.append(f"accepted with force {np.linalg.norm(force):.3f} > max_force {opts['max_force']}"
+                           + (f" (the walker works with {walker.max_force})" if walker.max_force != opts['max_force'] else ''))
             if 'cur' in ctxs and not start:
                 _, prev, cur = ctxs['cur']
                 prevp = self.get_point(mol_idx, prev)
@@ -251,7 +264,7 @@ def run_monitored(case, timeout=60):
         extra = {'ligands': [list(x) for x in case['ligands']]} if case.get('ligands') else {}
         res = systems.run_gen_coords(wd, top, seed=case['seed'], hooks=hooks, box=box,
                                      step_fudge=opts['step_fudge'], max_force=opts['max_force'],
-                                     nrewind=opts['nrewind'], grid_spacing=opts['grid_spacing'], maxiter=200, timeout=timeout, **extra)
+                                     nrewind=opts['nrewind'], grid_spacing=opts['grid_spacing'], maxiter=opts.get('maxiter', 200), timeout=timeout, **extra)
     rec['ok'] = res['ok']
     rec['exc'] = None if res['ok'] else f"{res['exc_type']}: {res['exception']}"
     if res['ok'] and 'final' in rec:
@@ -290,6 +303,7 @@ def run(ctx):
         c['branched'] = True
         cases.append(c)
     cases += [gen_crowded(ctx.rng) for _ in range(ctx.n(2, 16))]
+    cases += [gen_few_tries(ctx.rng) for _ in range(ctx.n(2, 12))]
     cases += [gen_system(ctx.rng) for _ in range(ctx.n(14, 150))]
     nplace = 0
     timeouts = 0
@@ -310,6 +324,8 @@ def run(ctx):
             ctx.feature('crowded_runs_with_long_steps')
         if case.get('branched'):
             ctx.feature('branched_molecules_with_mixed_residue_sizes')
+        if case.get('few_tries'):
+            ctx.feature('crowded_runs_with_one_try_per_molecule')
         ctx.feature('placements', len(rec['placements']))
         ctx.feature('placements_with_neighbours', sum(1 for p in rec['placements'] if p.get('near')))
         if not rec['ok']:
